@@ -137,6 +137,15 @@ Qed.
 
 Definition node_at (σ : sys) (k : nat) : node := nth k (sy_nodes σ) (mk_node 1).
 
+Lemma node_at_In σ k : (k < length (sy_nodes σ))%nat -> In (node_at σ k) (sy_nodes σ).
+Proof. intro H. apply nth_In. exact H. Qed.
+
+Lemma run_append {S E} (st : S -> E -> S -> Prop) a x b y c : run S E st a x b -> run S E st b y c -> run S E st a (x ++ y) c.
+Proof. intros H1 H2. induction H1; simpl; auto. econstructor; eauto. Qed.
+
+Ltac inat := apply node_at_In; vm_compute; lia.
+Ltac vc := vm_compute; reflexivity.
+
 (* positive instance + the deposed leader's fresh NOP stays uncommitted *)
 Example verify_read_fresh_nonvacuous_ex :
   exists σ0 σ1 σ2 σ3 s1 s2 s3 a b1 b i e d1 d,
@@ -160,8 +169,12 @@ Proof.
     (node_at t21 0), (node_at t21 1), (node_at t26 1), 2%nat,
     {| e_term := 3; e_index := 3; e_type := EntryNOP; e_pl := [] |}, (node_at t26 0), (node_at t29 0).
   split; [exact vf_cinit|]. split; [exact vf_run_a|]. split; [exact vf_run_b|]. split; [exact vf_run_c|].
-  repeat split; try (vm_compute; auto; fail); try (vm_compute; reflexivity); try (vm_compute; lia).
-  - eexists. split; [vm_compute; reflexivity|]. split; vm_compute; reflexivity.
+  split; [inat|]. split; [inat|]. split; [inat|].
+  split; [vc|]. split; [vc|]. split; [vc|]. split; [vc|].
+  split; [vm_compute; lia|]. split; [vc|]. split; [vc|]. split; [vc|]. split; [vm_compute; lia|].
+  split; [inat|]. split; [inat|]. split; [vc|]. split; [vc|]. split; [vc|]. split; [vc|]. split; [vc|].
+  split; [eexists; split; [vc|]; split; vc|].
+  split; [vc|]. vm_compute; lia.
 Qed.
 
 (* necessity of "the committed entry was appended AFTER the request": riding the NOP that was already in flight *)
@@ -182,7 +195,9 @@ Proof.
     (node_at t26 1), (node_at t26 0), (node_at t29 0), 1%nat,
     {| e_term := 2; e_index := 2; e_type := EntryNOP; e_pl := [] |}.
   split; [exact vf_cinit|].
-  split; [eapply run_app; [exact vf_run_a | exact vf_run_b]|]. split; [exact vf_run_c|].
-  repeat split; try (vm_compute; auto; fail); try (vm_compute; reflexivity); try (vm_compute; lia).
+  split; [eapply run_append; [exact vf_run_a | exact vf_run_b]|]. split; [exact vf_run_c|].
+  split; [inat|]. split; [inat|]. split; [inat|].
+  split; [vc|]. split; [vc|]. split; [vc|]. split; [vc|]. split; [vc|]. split; [vc|]. split; [vc|].
+  split; [vm_compute; lia|]. split; [vm_compute; lia|]. split; [vc|].
   vm_compute. discriminate.
 Qed.
